@@ -714,6 +714,40 @@ def rule_fivecells(h: int, w: int, problem: List[List[int]]) -> Callable[[Sequen
     return ok
 
 
+def rule_nurimisaki(h: int, w: int, problem: List[List[int]]) -> Callable[[Sequence[bool]], bool]:
+    """-1 = plain cell, 0 = circle without a number, n >= 2 = circle with a number"""
+
+    def ok(pat: Sequence[bool]) -> bool:
+        white = grid_of(h, w, pat)
+        if not connected(h, w, {c for c in cells(h, w) if white[c]}):
+            return False
+        for y in range(h - 1):
+            for x in range(w - 1):
+                q = [white[(y, x)], white[(y + 1, x)], white[(y, x + 1)], white[(y + 1, x + 1)]]
+                if all(q) or not any(q):
+                    return False
+        for c in cells(h, w):
+            n = problem[c[0]][c[1]]
+            wn = [d for d in nb4(h, w, c) if white[d]]
+            if n == -1:
+                if white[c] and len(wn) == 1:
+                    return False  # a dead end without a circle
+                continue
+            if not white[c] or len(wn) != 1:
+                return False
+            if n >= 2:
+                dy, dx = wn[0][0] - c[0], wn[0][1] - c[1]
+                run, (y, x) = 1, wn[0]
+                while 0 <= y < h and 0 <= x < w and white[(y, x)]:
+                    run += 1
+                    y, x = y + dy, x + dx
+                if run != n:
+                    return False
+        return True
+
+    return ok
+
+
 def decide_sudoku(a: tuple, kw: dict, ids: List[int], posted: "_Posted", ext: Extender, label: str) -> Tuple[str, str, int]:
     """the answer space (size^(size^2)) cannot be enumerated; instead
     (sound) every posted constraint is a consequence of the rules: an all-different over cells of one row, column or block, or a
@@ -899,7 +933,12 @@ def instances(tier: str) -> List[Tuple[str, tuple, dict, Callable[..., Callable[
     # building (skyscrapers), order 3
     I += [("building", (3, [0, 0, 0], [0, 0, 0], [0, 0, 0], [0, 0, 0]), {}, rule_building),
           ("building", (3, [1, 0, 2], [0, 3, 0], [2, 0, 0], [0, 0, 1]), {}, rule_building),
-          ("building", (3, [0, 0, 3], [0, 1, 0], [0, 2, 0], [3, 0, 0]), {}, rule_building)]
+          ("building", (3, [0, 0, 3], [0, 1, 0], [0, 2, 0], [3, 0, 0]), {}, rule_building),
+          # one clue per side on its own: each viewing direction is visible in the solution set
+          ("building", (3, [2, 0, 0], [0, 0, 0], [0, 0, 0], [0, 0, 0]), {}, rule_building),
+          ("building", (3, [0, 0, 0], [0, 3, 0], [0, 0, 0], [0, 0, 0]), {}, rule_building),
+          ("building", (3, [0, 0, 0], [0, 0, 0], [0, 0, 3], [0, 0, 0]), {}, rule_building),
+          ("building", (3, [0, 0, 0], [0, 0, 0], [0, 0, 0], [1, 0, 0]), {}, rule_building)]
     # doppelblock, order 3 (numbers 1..1)
     I += [("doppelblock", (3, [-1, -1, -1], [-1, -1, -1]), {}, rule_doppelblock),
           ("doppelblock", (3, [1, -1, 0], [-1, 0, 1]), {}, rule_doppelblock)]
@@ -919,6 +958,12 @@ def instances(tier: str) -> List[Tuple[str, tuple, dict, Callable[..., Callable[
     I += [("fivecells", (1, 5, [[-1, 3, -1, -1, -1]]), {}, rule_fivecells),
           ("fivecells", (1, 10, [[-1, -1, -1, -1, 3, -1, -1, -1, -1, 2]]), {}, rule_fivecells),   # two pentominoes in a row
           ("fivecells", (2, 3, [[-1, -1, -1], [-1, 1, -2]]), {}, rule_fivecells)]
+    # nurimisaki
+    I += [("nurimisaki", (3, 3, [[2, -1, -1], [-1, -1, -1], [-1, -1, 0]]), {}, rule_nurimisaki),
+          ("nurimisaki", (2, 4, [[-1, -1, -1, 3], [0, -1, -1, -1]]), {}, rule_nurimisaki),
+          ("nurimisaki", (3, 4, [[-1, -1, -1, -1], [-1, -1, -1, -1], [3, -1, -1, -1]]), {}, rule_nurimisaki),
+          # a cape whose line runs down to a black cell in the bottom row (needs three rows and room beside it)
+          ("nurimisaki", (3, 5, [[2, -1, -1, -1, -1], [-1, -1, -1, -1, -1], [-1, -1, -1, -1, -1]]), {}, rule_nurimisaki)]
     # sudoku: decided through constraint-wise soundness and pairwise refutation (all boards of that order)
     I += [("sudoku", ([[1, 0, 0, 2], [0, 0, 0, 0], [0, 0, 0, 0], [3, 0, 0, 4]],), {"n": 2}, decide_sudoku),
           ("sudoku", ([[0] * 9 for _ in range(8)] + [[0, 0, 0, 0, 0, 0, 0, 0, 7]],), {"n": 3}, decide_sudoku)]
